@@ -66,14 +66,17 @@ META["C12"] = dict(engine="orch", note=ORCH_NOTE,
          "inductive ownership invariant over arbitrary histories of KeyGen/Sign/cancel/late-continuation/inject; upstream residue defects "
          "repaired; tied to the code by executing such histories on a real Scheme and comparing API results, table keys and reached instances.")
 
-META["C14"] = dict(engine="box", note=BOX_NOTE + " Concurrent half: lock-granular small-step model (threads = program counters, buffers = heap "
-    "objects) tied to the real Box by a cooperative scheduler at yield points placed at the lock boundaries (build tag verif); preemption "
-    "inside critical sections and the garbage collector are outside this model.",
-    text="Proved: sequential exactly-once/in-order (all operation lists) and at-most-once for ALL lock-granular interleavings of any "
-         "number of receive/send calls (NoDup invariant over thread-local, buffered and handed-over messages). The full statement is "
-         "refuted on the faithful model with three witness schedules (late / lost / order) that the check replays on the real Box: "
-         "genuine upstream defects needing a restructuring of the locking, recorded as known findings C14-a/b/c; any other failure "
-         "(e.g. a double hand-over) is a violation.")
+META["C14"] = dict(engine="box", note=BOX_NOTE + " Concurrent half: lock-granular small-step model Box/Sync.v (goroutines = scripts of calls with "
+    "a program counter between lock boundaries; the draining table) tied to the real Box by a cooperative scheduler at yield points placed "
+    "at the lock boundaries (build tag verif); preemption inside a critical section cannot change the outcome (every shared access is under "
+    "the box lock, C20); the garbage collector is outside the concurrent model (no clock tick during the schedules; it is part of the "
+    "sequential model).",
+    text="Proved for ALL lock-granular interleavings of any number of goroutines making any sequences of HandleMessage and Send calls, at "
+         "every point of the run: per topic and sender, hand-overs ++ waiting (in the drain's hands, in its queue, buffered, in the reader's "
+         "hands) = arrivals, in arrival order (C14_exactly_once_in_order); nothing waits once every call has returned and nothing is buffered "
+         "for a started topic (C14_complete_when_quiescent); arrival order = the reader's call order; no panic. The pinned upstream Box "
+         "violated the statement (three refutation witnesses kept in Props/C14.v: late / lost / order): genuine defects, repaired in /repo "
+         "by b40b5e7 (decision and store in one critical section, draining queue). Sequential half with GC and clock proved for all operation lists.")
 
 META["C10"] = dict(engine="c10",
     note="Trusted: Coq kernel, no axioms. Per-entry-point totality theorems over the engines' models (each tied to the code by its own engine's "
@@ -297,10 +300,10 @@ META["C05"] = dict(engine="dkg", note=DKG_NOTE,
          "cross-check accepted; it never reaches a programming-error panic. For n parties with arbitrary Byzantine ones: all honest "
          "parties that return Ok return identical (tpk, pks); the keys lie on one polynomial of degree < t with tpk = g^p(0) and "
          "sk_i = p(i) (hence any >= t of them sign under tpk), t = n included; a key off the polynomial or not matching its commitment "
-         "=> no honest Ok. Tie: 16 scripted deviations x victim sets x (n,t) x schedules on real TBLS (TPS: monitors) with exact "
+         "=> no honest Ok. Tie: 18 scripted deviations x victim sets x (n,t) x schedules on real TBLS (TPS: monitors) with exact "
          "replay on the model; equivocating participant with/without self-acks on the full stack.")
-META["C01"] = dict(engine="dkg", note=DKG_NOTE + " Liveness of orchestrated signing is partial: known findings C01-a (loud: pre-signing "
-                   "query of a slower signer dropped after the peer finished) and C01-b (silent: consequence of C14-a).",
+META["C01"] = dict(engine="dkg", note=DKG_NOTE + " Liveness of orchestrated signing is partial: known finding C01-a (loud: pre-signing "
+                   "query of a slower signer dropped after the peer finished); the silent-mode consequence of C14-a is repaired (b40b5e7).",
     text="Proved in Coq: with every party honest, every sent message delivered and no cancellation, in ANY interleaving of deliveries "
          "and wake-ups (early messages included) every party returns Ok with identical (tpk, pks) = (g^P(0), [g^P(i)]) and sk_i = P(i), "
          "P the sum of the dealt polynomials, for all 1 <= t <= n (uses C18_crosscheck_honest); for every digest and every list of >= t "
